@@ -34,7 +34,8 @@ CHECKS = {
         technique="z3 SAT clade specification deciding the output sets of tree_from_triples / all_trees_from_triples / supertree; exhaustive enumeration for the disjoint-set structure",
         text="For every binary tree on <= 5 leaves, every subset of the triples on <= 4 leaves and seeded sets on 5-6 leaves, z3 decides on a declarative "
              "clade specification that all_trees_from_triples returns exactly the displaying binary trees (each a model, none repeated, none missing) "
-             "and that tree_from_triples / supertree return a displaying tree iff the specification is satisfiable. The disjoint-set structure is "
+             "and that tree_from_triples / supertree return a displaying tree on exactly the union of the leaves iff the specification is satisfiable "
+             "(input trees down to two leaves). The disjoint-set structure is "
              "enumerated exhaustively over union histories and over a single operation from every forest state (stated as enumeration).",
         design="5/C20", engine="forksym",
         note="Trusted: z3 Boolean / pseudo-Boolean solving, engine/oracles/clades.py; trees and triple sets are enumerated, output sets decided by the solver."),
@@ -83,7 +84,8 @@ CHECKS = {
         technique="symbolic execution of reconcile_lca / reconcile_thl(hgt=inf) + z3 LIA proof of minimality and uniqueness against all transfer-free reconciliations",
         text="For every structural input in the bound, reconcile_lca equals an independent LCA mapping and z3 proves, for ALL dup, floss >= 0 and "
              "0 <= spe <= dup, that it is no dearer than any transfer-free reconciliation of the oracle and strictly cheaper than every other one "
-             "when floss > 0; reconcile_thl with an infinite transfer cost, explored on the same symbols, returns exactly that cost/mapping.",
+             "when floss > 0; reconcile_thl with an infinite transfer cost, explored on the same symbols, returns exactly that cost/mapping. "
+             "Inputs with and without names on the ancestors of both trees.",
         design="5/C07", engine="forksym"),
     "C10": dict(
         technique="paired bounded symbolic execution (affine costs, z3 LIA): relation between two algorithms' minima proven per joint path",
@@ -108,27 +110,31 @@ CHECKS = {
         text="For every structural input in the bound and EVERY non-negative integer cost vector in the coherent region (sloss = 0 included), on every "
              "feasible path of the real ordered solvers (any, all; finite and infinite transfer cost; optional prescribed root order) z3 proves the "
              "returned solutions valid and no dearer than every oracle solution; emptiness is compared with the oracle's; base variant against the "
-             "oracle restricted to the independently computed LCA mapping.",
+             "oracle restricted to the independently computed LCA mapping. Extra sections: seeded 4-5-leaf x 3-4-family inputs, a call history "
+             "(earlier concrete calls in a fresh interpreter, then the symbolic exploration) and, in the thorough tier, one complete structural family (15^4 inputs).",
         design="5/C02", engine="forksym"),
     "C03": dict(
         technique="bounded symbolic execution (five affine costs, z3 LIA) of usreconcile_extended_uspfs / base_uspfs vs. independent enumerator of mappings x family-set labellings",
         text="For every structural input in the bound and EVERY non-negative integer cost vector in the coherent region, on every feasible path of "
              "SuperDTL and its base variant (any, all; finite and infinite transfer cost) z3 proves the returned solutions valid and no dearer than "
-             "every (mapping, labelling) of the oracle, whose labellings range over every content between required and allowed.",
+             "every (mapping, labelling) of the oracle, whose labellings range over every content between required and allowed. Extra sections: seeded 5-6-leaf inputs (three symbolic costs) "
+             "and a call history (earlier concrete calls in a fresh interpreter, then the symbolic exploration).",
         design="5/C03", engine="forksym"),
     "C17": dict(
         technique="bounded symbolic execution (symbolic array elements, z3 LIA, ite model of min) of RangeMinQuery; py2smt bit-vector proof of _ilog2; exhaustive structural enumeration for ancestry queries",
         text="RangeMinQuery's real constructor and query run on unconstrained symbolic integers; for every range of every length in the bound z3 "
              "proves the result is the minimum of exactly that slice for ALL array contents. _ilog2 is translated from source to bit-vectors and "
              "proven. The ancestry queries have no numeric dimension: every plane tree of any arity, every node pair and triple up to the bound "
-             "is enumerated on the real code against parent-chain definitions (stated as enumeration).",
+             "is enumerated on the real code against parent-chain definitions, under four node-naming schemes and two construction "
+             "histories (stated as enumeration).",
         design="5/C17", engine="forksym"),
     "C18": dict(
         technique="AST-to-SMT translation (z3 bit-vectors, ite-merged branches, unwinding assertion) of subseq_segment_dist vs. declarative run count; symbolic-element round trips",
         text="subseq_segment_dist is translated from its current source into one bit-vector formula and z3 proves it equal to a declarative "
              "run-count specification for ALL (child, parent, edges) with N-bit masks (one unsat query per N, plus unwinding, termination and "
              "range side queries; translator validated against the real function on the repo's vectors and seeded inputs; cvc5 cross-check in "
-             "the thorough tier). mask_from_subseq/subseq_from_mask run on symbolic pairwise-distinct elements for every mask.",
+             "the thorough tier). mask_from_subseq/subseq_from_mask run on symbolic pairwise-distinct elements for every mask (a returned list edited by "
+             "the caller must not change the next equal call), with a concrete int/str/tuple companion (enumeration).",
         design="5/C18", engine="py2smt",
         note="Trusted: engine/py2smt.py (validated per run against the real function), z3 bit-vector theory, the declarative specification in checks/c18.py."),
     "C16": dict(
@@ -147,7 +153,8 @@ CHECKS = {
         text="For every structural input in the bound and EVERY non-negative integer cost vector in the coherent region, on every "
              "feasible path of the real thl / exhaustive solvers (any, all; finite and infinite transfer cost) z3 proves the returned "
              "reconciliation valid and no dearer than each valid reconciliation of an independent enumerator; generate_all is compared "
-             "with the oracle set. Counterexamples are replayed with plain ints before being reported.",
+             "with the oracle set. Extra sections: deep (caterpillar) species trees, and a call history (the solver is first called "
+             "concretely in a fresh interpreter, then explored symbolically; replay in a fresh interpreter). Counterexamples are replayed with plain ints before being reported.",
         design="5/C01", engine="forksym"),
 }
 
